@@ -108,8 +108,12 @@ package metadata
 //@ modifies any(caching.MetadataCache), any(providers.SyncedProvider)
 //@ func FuncParam.Reduce trusted
 //@ modifies any(caching.MetadataCache), any(providers.SyncedProvider)
-// assumed: building the template-context map has no effect
-//@ func GetTemplateContextMetadata trusted
+// building the template-context map has no effect on the caller's heap (proved: it only writes a map it allocated)
+//@ func GetTemplateContextMetadata props C14
+//@ requires attributes != nil
+//@ ensures ok: implies(result1 == nil, result0 != nil)
+//@ ensures bad: implies(result1 != nil, result0 == nil)
+//@ loop 0 invariant fresh(templateContext) && templateContext != nil
 // A reduced route carries what its annotations say (C01 identity, verb, route, hiding; C03/C04 its own security or,
 // without any, the inherited one - an error of any lookup fails the reduction; C06 one entry per parameter and result)
 //@ func ReceiverMeta.Reduce props C01,C03,C04,C06,C14
